@@ -143,4 +143,32 @@ theorem blockpage_conv_guard_src : blockpage_conv_guard = "s == nil | err != nil
 /-- `servers.validate`: empty list, nil item, the server itself, duplicate name (`Shape.valGroup`). -/
 theorem srvs_cases_src : srvs_cases = "len(srvs) == 0 | s == nil | err != nil | names.Has(s.Name)" := by decide
 
+/-! ### Round 6 — the backend-facing builder steps (`Config.Backend.wire`) -/
+
+/-- `builder.initProfileDB` reads the validated `ratelimit.response_size_estimate` … -/
+theorem profdb_est_src_src : profdb_est_src = "b.conf.RateLimit.ResponseSizeEstimate" := by decide
+
+def profdbStorageArgsExp : String :=
+  "&backendpb.ProfileStorageConfig{ BindSet: b.bindSet, ErrColl: b.errColl, Logger: b.baseLogger.With(slogutil.KeyPrefix, \"profilestorage\"), GRPCMetrics: b.backendGRPCMtrc, Metrics: backendProfileDBMtrc, Endpoint: apiURL, APIKey: b.env.ProfilesAPIKey, ResponseSizeEstimate: respSzEst, MaxProfilesSize: b.env.ProfilesMaxRespSize, }"
+/-- … and hands it to the profile storage, which builds the limiters of the profiles the backend sends
+(`Wiring.storageEst`) … -/
+theorem profdb_storage_args_src : profdb_storage_args = profdbStorageArgsExp := rfl
+
+def profdbNewArgsExp : String :=
+  "&profiledb.Config{ Logger: b.baseLogger.With(slogutil.KeyPrefix, \"profiledb\"), Storage: strg, ErrColl: b.errColl, Metrics: profDBMtrc, CacheFilePath: b.env.ProfilesCachePath, FullSyncIvl: c.FullRefreshIvl.Duration, FullSyncRetryIvl: c.FullRefreshRetryIvl.Duration, ResponseSizeEstimate: respSzEst, }"
+/-- … and to the profile database (`Wiring.cacheEst`, `fullIvl`, `retryIvl`) … -/
+theorem profdb_new_args_src : profdb_new_args = profdbNewArgsExp := rfl
+
+/-- … which passes it on to the file-cache storage that rebuilds the limiters after a restart. -/
+theorem profdb_cache_args_src : profdb_cache_args = "logger, c.CacheFilePath, c.ResponseSizeEstimate" := by decide
+
+/-- `agd.DefaultRatelimiter.CountResponses` divides by the estimate first (`Backend.probe`). -/
+theorem prof_resp_weight_src : prof_resp_weight = "datasize.ByteSize(resp.Len()) / r.respSzEst" := by decide
+
+/-- Every refresh worker makes a ticker of its interval (`Backend.ticker`). -/
+theorem refresh_ticker_src : refresh_ticker = "c.Interval" := by decide
+
+/-- `builder.initBillStat` takes the interval of its worker from `backend.bill_stat_interval`. -/
+theorem bill_ivl_src_src : bill_ivl_src = "c.BillStatIvl.Duration" := by decide
+
 end Agd.Tie.C20
